@@ -63,7 +63,7 @@ Definition okC11_conv (lo hi v : N) (res : option bytes) : bool :=
 (** * Traces of a worker, as the scripted socket records them *)
 
 (** [TSend raw failed snap]: one call of [Socket::send] with the datagram, whether
-    the call was made to fail, and (receiver only) the length and FNV-1a-64
+    the call was made to fail, and (receiver only) the length and a
     fingerprint of the file at that moment.  [TRecv]: one call of [Socket::recv]. *)
 Inductive titem :=
 | TSend (raw : bytes) (failed : bool) (snap : option (N * N))
@@ -121,9 +121,9 @@ Definition lift16 (lo n : N) : N :=
 Fixpoint bursts_aux (cur : list (bytes * bool * option (N * N))) (t : list titem)
   : list (list (bytes * bool * option (N * N))) :=
   match t with
-  | [] => [rev cur]
+  | [] => [rev_append cur []]
   | TSend raw f s :: r => bursts_aux ((raw, f, s) :: cur) r
-  | TRecv :: r => rev cur :: bursts_aux [] r
+  | TRecv :: r => rev_append cur [] :: bursts_aux [] r
   end.
 Definition bursts (t : list titem) := bursts_aux [] t.
 
@@ -301,3 +301,161 @@ Section SendMonitor.
       end
     end.
 End SendMonitor.
+
+(** * C02 + C07 / C08 / C16 (receiver) + C13: one pass over a receive trace *)
+
+(** Fingerprints of the file, as the harness takes them inside [Socket::send]: a Fletcher-style
+    pair of sums modulo the prime 2^32 - 5, packed as [b * 2^32 + a] (additions only). *)
+Definition fnv_init : N := 0.
+Definition fp_p : N := 4294967291.
+Definition mask32 : N := 4294967295.
+Definition addmod (x y : N) : N := let s := x + y in if fp_p <=? s then s - fp_p else s.
+Definition fnv_step (h x : N) : N :=
+  let a := addmod (N.land h mask32) (x + 1) in
+  let b := addmod (N.shiftr h 32) a in
+  N.lor (N.shiftl b 32) a.
+Definition fnv_extend (h : N) (l : bytes) : N := fold_left fnv_step l h.
+
+Record rmon := mk_rmon {
+  q_cnt : N;        (* blocks accepted in sequence so far *)
+  q_len : N;        (* their total length *)
+  q_hash : N;       (* fingerprint of their concatenation *)
+  q_done : bool;    (* a block shorter than blksize was accepted *)
+  q_unacked : N;    (* blocks accepted since the last acknowledgement *)
+  q_fails : N;      (* consecutive failed receives *)
+  q_prefixes : list (N * N) (* fingerprints of the file after each accepted block, latest first *)
+}.
+
+Record rverdict := mk_rverdict { u_c02 : bool; u_c07 : bool; u_c08 : bool; u_c16 : bool; u_c13 : bool; u_c04 : bool }.
+Definition uand (a b : rverdict) : rverdict :=
+  mk_rverdict (u_c02 a && u_c02 b) (u_c07 a && u_c07 b) (u_c08 a && u_c08 b) (u_c16 a && u_c16 b) (u_c13 a && u_c13 b)
+              (u_c04 a && u_c04 b).
+Definition utrue := mk_rverdict true true true true true true.
+
+Definition fp_eqb (a b : N * N) : bool := (fst a =? fst b) && (snd a =? snd b).
+
+Section RecvMonitor.
+  Variables (blk ws rep : N) (clean : bool).
+
+  (** Runs of exactly [rep] identical ACK copies; a failed first copy ends the burst. *)
+  Fixpoint ack_emissions (fuel : nat) (l : list (bytes * bool * option (N * N)))
+    : option (list (bytes * option (N * N))) :=
+    match fuel with
+    | O => None
+    | S fuel' =>
+      match l with
+      | [] => Some []
+      | (raw, failed, snap) :: l' =>
+        if failed then match l' with [] => Some [(raw, snap)] | _ => None end
+        else match take_copies raw (N.to_nat (rep - 1)) l' with
+             | Some l'' => match ack_emissions fuel' l'' with Some e => Some ((raw, snap) :: e) | None => None end
+             | None => None
+             end
+      end
+    end.
+
+  (** Every copy of a burst shows the same file. *)
+  Definition snaps_agree (l : list (bytes * bool * option (N * N))) : bool :=
+    match l with
+    | [] => true
+    | (_, _, s0) :: r =>
+      forallb (fun x => match s0, snd x with
+                        | Some a, Some b => fp_eqb a b
+                        | None, None => true
+                        | _, _ => false
+                        end) r
+    end.
+
+  Definition last_failed (l : list (bytes * bool * option (N * N))) : bool :=
+    match rev_append l [] with (_, f, _) :: _ => f | [] => false end.
+
+  Fixpoint rmon_run (m : rmon) (evs : list mev) (bs : list (list (bytes * bool * option (N * N))))
+           (ending : tend) (final : option (N * N)) : rverdict :=
+    match evs, bs with
+    | e :: evs', b :: bs' =>
+      let is_last := match bs' with [] => true | _ => false end in
+      (* the arrival, cut to the receive buffer *)
+      let dat := match m_raw e with Some raw => as_data (firstn (N.to_nat (blk + 4)) raw) | None => None end in
+      let err := match m_raw e with Some raw => is_error (firstn (N.to_nat (blk + 4)) raw) | None => false end in
+      let acc := match dat with
+                 | Some (n, p) => negb (q_done m) && (n =? (q_cnt m + 1) mod 65536)
+                 | None => false
+                 end in
+      let payload := match dat with Some (_, p) => p | None => [] end in
+      let m1 :=
+        if acc then
+          let h := fnv_extend (q_hash m) payload in
+          let len := q_len m + lenN payload in
+          mk_rmon (q_cnt m + 1) len h (lenN payload <? blk) (q_unacked m + 1) 0 ((len, h) :: q_prefixes m)
+        else
+          mk_rmon (q_cnt m) (q_len m) (q_hash m) (q_done m) (q_unacked m)
+                  (match m_raw e with None => q_fails m + 1 | Some _ => q_fails m end) (q_prefixes m) in
+      match ack_emissions (S (length b)) b with
+      | None => mk_rverdict true true true false true true
+      | Some ems =>
+        (* C02: every ACK carries the count of blocks accepted in sequence, and the file holds exactly them *)
+        let c02 := forallb (fun x =>
+                     match as_ack (fst x) with
+                     | Some a => (a =? q_cnt m1 mod 65536)
+                                 && match snd x with Some s => fp_eqb s (q_len m1, q_hash m1) | None => true end
+                     | None => false
+                     end) ems && snaps_agree b in
+        let acked := match ems with [] => false | _ => true end in
+        (* C08: an acknowledgement at the latest after [ws] consecutive in-order blocks and on the final block *)
+        let must_ack := acc && ((q_unacked m1 =? ws) || q_done m1) in
+        let c08 := (negb must_ack || acked) && (q_unacked m1 <=? ws) in
+        (* C07: ERROR ends at once and silently; the final block ends the transfer after its ACK;
+           bounded consecutive failures; success only through the final block *)
+        let sendfail := last_failed b in
+        let c07 :=
+          (if err then is_last && negb acked
+           else if acc && q_done m1 then is_last && (sendfail || match ending with EndOk => true | _ => false end)
+           else (negb (retry_budget <=? q_fails m1) || is_last)
+                && (negb is_last || match ending with EndOk => false | _ => true end)) in
+        let m2 := mk_rmon (q_cnt m1) (q_len m1) (q_hash m1) (q_done m1) (if acked then 0 else q_unacked m1)
+                          (q_fails m1) (q_prefixes m1) in
+        (* C04: a block that was already acknowledged arrives again while nothing is buffered (the sender
+           did not get our ACK): the ACK must be repeated, otherwise a single lost ACK fails the upload *)
+        let dup_of_acked := match dat with
+                            | Some (n, _) => negb acc && negb (q_done m) && (q_unacked m =? 0) && (1 <=? q_cnt m)
+                                             && (let k := lift16 (q_cnt m + 1 - N.min (q_cnt m) 65535) n in k <=? q_cnt m)
+                            | None => false
+                            end in
+        let c04 := negb dup_of_acked || acked in
+        let v := mk_rverdict c02 c07 c08 true true c04 in
+        if is_last then
+          (* C13: what is left on disk *)
+          let c13 :=
+            match ending with
+            | EndOk => match final with Some f => fp_eqb f (q_len m2, q_hash m2) && q_done m2 | None => false end
+            | EndRunaway => true
+            | _ => if clean then match final with None => true | Some _ => false end
+                   else match final with
+                        | Some f => existsb (fp_eqb f) ((0, fnv_init) :: q_prefixes m2)
+                        | None => false
+                        end
+            end in
+          uand v (mk_rverdict true true true true c13 true)
+        else uand v (rmon_run m2 evs' bs' ending final)
+      end
+    | [], [] => utrue
+    | [], _ :: _ => mk_rverdict true false true true true true
+    | _ :: _, [] => utrue
+    end.
+
+  (** The whole receive trace: nothing is sent before the first receive. *)
+  Definition okRecv (tmo : N) (evs : list mev) (t : list titem) (ending : tend) (final : option (N * N)) : rverdict :=
+    match bursts t with
+    | [] => utrue
+    | b0 :: bs =>
+      match ending with
+      | EndRunaway => mk_rverdict true false true true true true
+      | _ =>
+        let v0 := mk_rverdict (match b0 with [] => true | _ => false end) true true true true true in
+        match bs with
+        | [] => v0
+        | _ => uand v0 (rmon_run (mk_rmon 0 0 fnv_init false 0 0 []) (pad_events evs tmo (length bs)) bs ending final)
+        end
+      end
+    end.
+End RecvMonitor.
